@@ -108,6 +108,17 @@ def mutants(rng, n):
                 pieces = [bad if k == badpos else ok_piece[k % 3] for k in range(npieces)]
                 jump = rng.choice(["[300]", "[201-400]", "[250-]"])
                 out.append(("chained-piece-error", "rule r { strings: $a = { %s } condition: $a }" % (" %s " % jump).join(pieces)))
+    # a string that fails with a recoverable error (the compiler reports it and goes on with the next rule), followed in the same source by
+    # rules with one / two / no strings: the bookkeeping of the failed string must not leak into the rules after it
+    bad_strings = ["/x(((((((((abcdefgh){3}){3}){3}){3}){3}){3}){3}){3})*y/", "/%s/" % ("(a|b)" * 200), "{ %s }" % " ".join("( 01 | 02 )" for _ in range(130)),
+                   "/a{5,2}/", "{ 01 [5-2] 02 }", '"dup" $a = "dup2"', "/[z-a]/", "/(/", "{ 01 02", '"unterminated']
+    followers = ['rule f1 { strings: $a = "one" condition: $a }', 'rule f2 { strings: $a = "one" $b = "two" condition: $a and $b }',
+                 'rule f3 { strings: $a = "one" condition: any of them }', 'rule f0 { condition: true }',
+                 'rule f4 { strings: $a = "one" $b = { 01 02 03 04 } $c = /thr[e]+/ condition: 2 of them }']
+    for bs in bad_strings:
+        for pre in ("", 'rule before { strings: $p = "pre" condition: $p }\n'):
+            fl = " ".join(rng.choice(followers).replace("rule f", "rule g%d_" % k) for k in range(rng.range(1, 3)))
+            out.append(("error-then-rules", '%srule bad { strings: $x = "fine" $a = %s condition: any of them }\n%s' % (pre, bs, fl)))
     for badpos in range(3):
         pieces = ["(x|y){0,1}" * 140 if k == badpos else "abc%d" % k for k in range(3)]
         out.append(("chained-piece-error", "rule r { strings: $a = /%s/ condition: $a }" % ".{300,400}".join(pieces)))
@@ -264,6 +275,14 @@ def run(chk):
         if (nerr > 0) != (ecb > 0) or (nerr != ecb):
             chk.violation("accounting", "error count %d but %d error callbacks (%s)" % (nerr, ecb, kind), replay)
             continue
+        if kind == "error-then-rules":
+            spurious = [l for l in lines if l.startswith("cb level=e") and re.search(r'rule=g\d+_', l)]
+            if nerr == 0:
+                chk.violation("invalid-accepted", "a rule with an invalid string is accepted without an error: %s" % src[:200], replay)
+                continue
+            if spurious:
+                chk.violation("spurious-diagnosis", "after a string that failed to compile, a valid rule that follows it is rejected: %s" % spurious[0][:200], replay)
+                continue
         if cid.startswith("m") and int(cid[1:]) in must_fail and nerr == 0:
             chk.violation("invalid-accepted", "an invalid regular expression is accepted without an error: %s" % src[:160], replay)
             continue
